@@ -78,6 +78,7 @@ type Violation struct {
 	SymVals  []SymVal
 	Apps     []AppVal
 	Lits     []string
+	Params   map[string]int // parameters of the entry that produced it
 }
 
 // Shared collects results across workers.
@@ -402,7 +403,7 @@ var allowedPkgPrefixes = []string{
 	"k8s.io/apimachinery/pkg/apis/meta/v1",
 	"k8s.io/apimachinery/pkg/runtime/schema",
 	"k8s.io/api/",
-	"sort", "errors", "strings", "unicode", "unicode/utf8", "math/bits", "slices", "cmp", "sync", "maps",
+	"sort", "errors", "strings", "unicode", "unicode/utf8", "math/bits", "slices", "cmp", "sync", "maps", "hash/fnv",
 }
 
 func (in *Interp) allowed(fn *ssa.Function) bool {
@@ -484,6 +485,13 @@ func (in *Interp) assertProp(c *Term, label string) {
 // recordViolation extracts a model for the given (satisfiable) constraint set.
 func (in *Interp) recordViolation(label, msg string, cons []*Term) {
 	v := &Violation{Label: label, Msg: msg, Pos: in.posString(in.curPos), Model: map[string]string{}, Entry: in.entry}
+	v.Params = map[string]int{}
+	for k, x := range in.local.params {
+		v.Params[k] = x
+	}
+	for k, x := range in.cfg.Params {
+		v.Params[k] = x
+	}
 	if in.sh != nil {
 		in.sh.mu.Lock()
 		n := len(in.sh.violations[label])
@@ -886,7 +894,7 @@ func (ex *Explorer) handleOutcome(in *Interp, out PathOutcome) {
 		}
 		in.local.asserted[label]++
 		in.recordViolation(label, out.Msg+" at "+out.Pos+"\n"+out.Stacks, in.st.pc)
-	case "deadlock":
+	case "deadlock", "livelock":
 		in.stats.Deadlocks++
 		label := ex.property + "/stuck"
 		in.local.asserted[label]++
